@@ -87,6 +87,23 @@ def _acc(name):
     if name == "frequency_axis_data":
         return (lambda v: qr.FrequencyAxis(v, 3, 1.0),
                 lambda o: float(o.data[0]), lambda o: float(o._data[0]))
+    if name in ("hamiltonian_cutoff_remove", "hamiltonian_cutoff_subtract"):
+        # an energy ARGUMENT of a Hamiltonian method: couplings v/2 and 2v, cut-off v, all given
+        # in the units current at the call; what is kept/removed must not depend on those units.
+        # "stored value": kept coupling + 1000 x (what is left of the removed / subtracted one)
+        def sup(v, _n=name):
+            h = qr.Hamiltonian(data=[[0.0, 0.5 * v, 2.0 * v], [0.5 * v, 10 * v, 0.0],
+                                     [2.0 * v, 0.0, 12 * v]])
+            if _n.endswith("remove"):
+                h.remove_cutoff_coupling(v)
+                return h
+            h.subtract_cutoff_coupling(v)
+            return h
+        if name.endswith("remove"):
+            return (sup, None, lambda o: float(0.5 * o._data[0, 2] + 1000.0 * o._data[0, 1]))
+        # subtract: couplings above the cut-off are reduced to the cut-off value (kept: v), the
+        # ones below stay -> observable: data[0,2] (== v) only
+        return (sup, None, lambda o: float(o._data[0, 2]) * 2.0)
     if name == "hamiltonian_rwa":
         # set_rwa stores block-averaged energies; what is stored must not depend on the units
         # that were current when it was called
@@ -120,8 +137,8 @@ def _acc(name):
 ACCESSORS = ["hamiltonian", "molecule_init", "molecule_set", "mode_init", "mode_set", "submode",
              "aggregate_coupling", "aggregate_coupling_matrix", "frequency_axis_start",
              "frequency_axis_step", "frequency_axis_data", "corfce_reorg", "spectdens_reorg",
-             "hamiltonian_rwa", "molecule_rwa"]
-POSITIVE_ONLY = {"corfce_reorg", "spectdens_reorg", "mode_init", "mode_set", "submode", "molecule_rwa",
+             "hamiltonian_rwa", "molecule_rwa", "hamiltonian_cutoff_remove"]
+POSITIVE_ONLY = {"hamiltonian_cutoff_remove", "corfce_reorg", "spectdens_reorg", "mode_init", "mode_set", "submode", "molecule_rwa",
                  "frequency_axis_step"}
 
 
@@ -216,6 +233,8 @@ def grid_cases(tier):
                         continue
                     if v == 0.0 and "nm" in (u1, u2):
                         continue
+                    if acc.startswith("hamiltonian_cutoff") and "nm" in (u1, u2):
+                        continue        # multiples of a wavelength are not multiples of an energy
                     c = {"part": "G", "accessor": acc, "u_in": u1, "u_out": u2, "value": v}
                     if acc == "convert":
                         c["u3"] = units if tier == "thorough" else ["1/cm", "nm", "Ha"]
@@ -442,11 +461,16 @@ class UWorld:
 
     def _leave(self, exc):
         typ, un, cm = self.stack.pop()
-        if exc is None:
-            cm.__exit__(None, None, None)
-        else:
-            if cm.__exit__(type(exc), exc, exc.__traceback__):
-                self.v("exception-swallowed", "units context swallowed an exception")
+        try:
+            if exc is None:
+                cm.__exit__(None, None, None)
+            else:
+                if cm.__exit__(type(exc), exc, exc.__traceback__):
+                    self.v("exception-swallowed", "units context swallowed an exception")
+        except Exception as e:      # leaving a units context must always work
+            self.v("context-exit-raises/%s-units" % typ,
+                   "leaving the %s-units context (%s) raised %s: %s"
+                   % (typ, un, type(e).__name__, str(e)[:80]))
 
     def exit(self):
         self._leave(None)
